@@ -397,7 +397,8 @@ pub fn random_step(rng: &mut Rng, srv: &mut Srv, padlens: &[usize]) -> Value {
                 return srv.input(json!({"m":"unknowntype","ty":ty}), &b);
             }
             let (m, name) = match rng.below(4) {
-                0 => (RtmpMessage::SetPeerBandwidth { size: rng.u32(), limit_type: PeerBandwidthLimitType::Soft }, "setpeerbw"),
+                0 => (RtmpMessage::SetPeerBandwidth { size: if rng.chance(1, 4) { rng.u32() } else { *rng.pick(&[1u32, 2, 16, 100, 4096, 1 << 20]) },
+                                                      limit_type: rng.pick(&[PeerBandwidthLimitType::Hard, PeerBandwidthLimitType::Soft, PeerBandwidthLimitType::Dynamic]).clone() }, "setpeerbw"),
                 1 => (RtmpMessage::Abort { stream_id: rng.u32() }, "abort"),
                 2 => (cmd(*rng.pick(&["releaseStream", "FCPublish", "getStreamLength", "_checkbw"]), 3.0, Amf0Value::Null, vec![s("k")]), "unknowncmd"),
                 _ => (RtmpMessage::UserControl { event_type: UserControlEventType::SetBufferLength, stream_id: Some(1), buffer_length: Some(3000), timestamp: None }, "userctl"),
